@@ -293,6 +293,7 @@ pub struct Proc {
     pub shard_default: DrawPolicy,
     pub rand_draws: u64,
     pub peak_fds: usize,
+    pub zero_streak: u32,
 }
 
 impl Proc {
@@ -1139,6 +1140,10 @@ pub fn k_open(st: &mut State, proc: usize, req: &Req) -> Result<(i32, Out), Errn
         });
         return Ok((fd, Out { ret: fd as i64, ino, ..Default::default() }));
     }
+    if flags & O_CREATE != 0 && req.raw.ends_with('/') {
+        // open(2) with O_CREAT and a trailing slash
+        return Err(libc::EISDIR);
+    }
     let r = st.fs.resolve(&req.raw)?;
     let mut created = false;
     let ino = match r.ino {
@@ -1272,6 +1277,9 @@ pub fn k_fstat(st: &mut State, proc: usize, req: &Req) -> Result<(Stat, Out), Er
 pub fn k_chmod(st: &mut State, _proc: usize, req: &Req) -> Result<((), Out), Errno> {
     let r = st.fs.resolve(&req.raw)?;
     let ino = r.ino.ok_or(libc::ENOENT)?;
+    if r.must_be_dir && !st.fs.inode(ino).is_dir() {
+        return Err(libc::ENOTDIR);
+    }
     st.fs.chmod_ino(ino, req.arg as u32);
     Ok(((), Out { ino, path: r.canon, ..Default::default() }))
 }
@@ -1285,6 +1293,9 @@ pub fn k_fchmod(st: &mut State, proc: usize, req: &Req) -> Result<((), Out), Err
 pub fn k_utimens(st: &mut State, _proc: usize, req: &Req) -> Result<((), Out), Errno> {
     let r = st.fs.resolve(&req.raw)?;
     let ino = r.ino.ok_or(libc::ENOENT)?;
+    if r.must_be_dir && !st.fs.inode(ino).is_dir() {
+        return Err(libc::ENOTDIR);
+    }
     st.fs.utimens_ino(ino, req.atime, req.mtime);
     Ok(((), Out { ino, path: r.canon, ..Default::default() }))
 }
